@@ -1508,6 +1508,16 @@ fn parent(args: &Args) {
     }
     let ends = run::run_children(args, &spec, &mut out);
     run::classify_ends(&ends, &mut out, true);
+    let mut extra = Map::new();
+    {
+        let mut dspec = ChildSpec::new("runs", args.get_u64("dbg_shards", 240)).arg("runs", runs).timeout(900).parallel(args.get_u64("parallel", 24) as usize);
+        for k in ["api", "preepoch"] {
+            if let Some(v) = args.get(k) {
+                dspec = dspec.arg(k, v);
+            }
+        }
+        run::dbg_build_layer(ID, args, vec![dspec], &mut out, &mut extra);
+    }
     sweep_tmp();
     run::finish(
         Finish {
@@ -1528,7 +1538,7 @@ fn parent(args: &Args) {
             min_evals: args.tier.pick(75_000, 900_000),
             min_distinct: args.tier.pick(4000, 13_000),
             exhaustive: false,
-            extra: Map::new(),
+            extra,
         },
         out,
     );
